@@ -85,7 +85,8 @@ Definition sstep_out (a : sst) (o : op) (r : out) (dump_c : list (N * vec)) : ss
 
 (* ---- observations: (returned value, read-back of every collection in play) ---- *)
 Definition dump := list (N * list (N * vec)).
-Definition obs := (out * dump)%type.
+Definition tdump := list (N * list (N * N)).          (* collection -> key -> value of the "tag" metadata field *)
+Definition obs := (out * dump * tdump)%type.
 Definition dget (d : dump) (c : N) : list (N * vec) := match aget d c with Some x => x | None => [] end.
 
 (* stored vectors read back exactly as written (f32 equality; NaN payloads bit for bit), nothing
@@ -105,10 +106,24 @@ Definition readback_ok (a : sst) (d : dump) : bool :=
 Definition nonzero_query (q : vec) : bool := negb (forallb f_iszero q).
 
 (* the property oracle for one step, on the implementation's outputs *)
+(* candidates among the vectors whose "tag" field is b, per the implementation's own read-back *)
+Definition tagged (td : tdump) (c b : N) (d : list (N * vec)) : list (N * vec) :=
+  filter (fun kv => match aget (match aget td c with Some x => x | None => [] end) (fst kv) with
+                    | Some x => N.eqb x b | None => false end) d.
+
 Definition oracle_step (t : stbl) (a' : sst) (o : op) (ob : obs) : bool :=
-  let '(r, d) := ob in
+  let '(r, d, td) := ob in
   readback_ok a' d &&
   match o, r with
+  | OSearchFiltered c (x :: q) k b _, RRes l =>
+      if nonzero_query (x :: q) && negb (N.eqb k 0) then
+        let live := tagged td c b (dget d c) in
+        let ex := exact_ok (cands (score_of t) 0 (x :: q) live) (N.to_nat k) l in
+        match valid (sget a' c) with
+        | Some (_ :: _) => ex || cached_ok (score_of t 10 (x :: q)) live (N.to_nat k) l
+        | _ => ex
+        end
+      else true
   | OSearch c (x :: q) k, RRes l =>
       if nonzero_query (x :: q) && negb (N.eqb k 0) then
         let live := dget d c in
@@ -141,31 +156,66 @@ Definition data_matches (rd md : list (N * vec)) : bool :=
 Definition dump_matches (d : dump) (s : st) : bool :=
   forallb (fun cd => data_matches (snd cd) (data (cget s (fst cd)))) d.
 
-Definition model_step_ok (t : stbl) (s : st) (o : op) (ob : obs) : st * bool :=
-  let '(r, d) := ob in
+(* post-filtering without the fallback: the first k matching of the top n of ALL candidates; a matching
+   candidate may be missing only if k better ones were returned or it can lie beyond the cut *)
+Definition post_ok (all m : list (N * N)) (n k : nat) (r : list (N * N)) : bool :=
+  Nat.leb (length r) k && sorted_desc r && nodup_keys r
+  && forallb (fun x => existsb (fun c => N.eqb (fst c) (fst x) && N.eqb (snd c) (snd x)) m) r
+  && forallb (fun c => has_key (fst c) r
+                       || (Nat.eqb (length r) k && forallb (fun x => f_le (snd c) (snd x)) r)
+                       || Nat.leb n (length (filter (fun y => negb (N.eqb (fst y) (fst c)) && f_le (snd c) (snd y)) all))) m.
+
+Definition fpath_ok (t : stbl) (p : fpath) (q : vec) (k : N) (r : out) : bool :=
+  match p, r with
+  | FErr e, RErr e' => N.eqb e e'
+  | FEmpty, RRes [] => true
+  | FExact m, RRes l => exact_ok (cands (score_of t) 0 q m) (N.to_nat k) l
+  | FCachedOrExact snap m, RRes l =>
+      exact_ok (cands (score_of t) 0 q m) (N.to_nat k) l
+      || (cached_ok (score_of t 10 q) snap (N.to_nat k) l && forallb (fun x => is_some (aget m (fst x))) l)
+  | FPostNoFallback d m, RRes l =>
+      post_ok (cands (score_of t) 0 q d) (cands (score_of t) 0 q m) (N.to_nat (3 * k)) (N.to_nat k) l
+  | FPostCached snap m, RRes l =>
+      cached_ok (score_of t 10 q) snap (N.to_nat k) l && forallb (fun x => is_some (aget m (fst x))) l
+  | FPanic, RErr 99 => true
+  | _, _ => false
+  end.
+
+Definition tdump_matches (td : tdump) (tg : tags) : bool :=
+  forallb (fun ce => let '(c, rows) := ce in
+     let m := tget tg c in
+     Nat.eqb (length rows) (length m) &&
+     forallb (fun kv => match aget m (fst kv) with Some x => N.eqb x (snd kv) | None => false end) rows) td.
+
+Definition model_step_ok (t : stbl) (s : st) (tg : tags) (o : op) (ob : obs) : st * tags * bool :=
+  let '(r, d, td) := ob in
   let '(s', mr) := mstep s o in
-  (s', dump_matches d s' &&
+  let tg' := tstep s tg o in
+  (s', tg', dump_matches d s' && tdump_matches td tg' &&
        match o with
+       | OSearchFiltered c q k b strat =>
+           fpath_ok t (filtered_path gen_cached_dim_guard gen_post_filter_fallback s tg c q k b strat) q k r
        | OSearch c q k => path_ok t (search_path gen_cached_dim_guard s c q k) q k r
        | OSearchMetric q k m => path_ok t (search_metric_path s q k m) q k r
        | _ => out_eqb mr r
        end).
 
 (* dumps must list keys in increasing order without repetition (canonical form) *)
-Fixpoint walk (t : stbl) (s : st) (a : sst) (ops : list op) (os : list obs) : N :=
+Fixpoint walk (t : stbl) (s : st) (tg : tags) (a : sst) (ops : list op) (os : list obs) : N :=
   match ops, os with
   | [], [] => V_OK
   | o :: ops', ob :: os' =>
-      let a' := sstep_out a o (fst ob) (dget (snd ob) (match o with OBuild c => c | _ => 0 end)) in
+      let '(r, d, _) := ob in
+      let a' := sstep_out a o r (dget d (match o with OBuild c => c | _ => 0 end)) in
       if negb (oracle_step t a' o ob) then V_VIOLATION
-      else let '(s', ok) := model_step_ok t s o ob in
-           if ok then walk t s' a' ops' os' else V_MISMATCH
+      else let '(s', tg', ok) := model_step_ok t s tg o ob in
+           if ok then walk t s' tg' a' ops' os' else V_MISMATCH
   | _, _ => 9
   end.
 
 Definition trace_case := (stbl * list op * list obs)%type.
 Definition check_trace (c : trace_case) : N :=
-  let '(t, ops, os) := c in walk t [] [] ops os.
+  let '(t, ops, os) := c in walk t [] [] [] ops os.
 
 (* ---- representation round trip on the implementation: (v, SparseVector::from_dense(v).to_dense()) *)
 Definition sparse_case := (vec * vec)%type.
@@ -173,3 +223,17 @@ Definition check_sparse (c : sparse_case) : N :=
   let '(v, r) := c in
   if negb (vec_same r v) then V_VIOLATION
   else if vec_eqb r (to_dense (from_dense gen_keep v)) then V_OK else V_MISMATCH.
+
+(* ---- the real HNSWIndex, directly (insert n vectors, search_with_ef): the premise of
+   C06_cached_safe_partial and the facts of C06_hnsw_search_safe_partial on the implementation.
+   (k, true similarity per node id -- to_similarity(distance_dense) -- , returned (id, score)) *)
+Definition hnsw_case := (N * list N * list (N * N))%type.
+Definition check_hnsw (c : hnsw_case) : N :=
+  let '(k, truth, hits) := c in
+  if Nat.leb (length hits) (N.to_nat k)
+     && nodup_keys hits
+     && sorted_desc hits
+     && forallb (fun h => match nth_error truth (N.to_nat (fst h)) with
+                          | Some s => N.eqb s (snd h)
+                          | None => false end) hits
+  then V_OK else V_VIOLATION.
